@@ -178,7 +178,14 @@ def check_schedule(ctx, R="C19.schedule"):
         raise AnalysisError("shape not recognised: schedule branches of _invokeSubBehavior")
     subsp, agentp = fn.args.args[2].arg, fn.args.args[1].arg
     # the picking helper: the nested function that filters by eligibility (however it then draws)
-    pickn = [f.name for f in ast.walk(fn) if isinstance(f, ast.FunctionDef) and f is not fn and any(isinstance(c, ast.Call) and isinstance(c.func, ast.Attribute) and c.func.attr == "_isEnabledForAgent" for c in ast.walk(f))]
+    pickn = [
+        f.name
+        for f in ast.walk(fn)
+        if isinstance(f, ast.FunctionDef)
+        and f is not fn
+        and any(isinstance(c, ast.Call) and isinstance(c.func, ast.Attribute) and c.func.attr == "_isEnabledForAgent" for c in ast.walk(f))
+        and not any(isinstance(y, (ast.Yield, ast.YieldFrom)) for y in ast.walk(f))  # a helper that answers, not the scheduling generator
+    ]
     if len(pickn) != 1:
         raise AnalysisError("shape not recognised: the picking helper of _invokeSubBehavior")
     ch = branches["choose"]
